@@ -71,6 +71,19 @@ type smModel struct {
 	behind   []smPacket // peer packets queued behind a message nobody consumed yet
 	emitted  []RPacket  // packets expected on the wire, in order
 	verdict  map[int]string // per peer packet (by arrival index): "nil" or "fatal"
+	manual   bool       // ManualFlush: messages stay buffered until something flushes
+	pending  []RPacket  // buffered, not yet on the wire
+}
+
+// emit puts a packet on the wire; whatever was buffered goes out in front of it.
+func (m *smModel) emit(p RPacket) {
+	m.flushPending()
+	m.emitted = append(m.emitted, p)
+}
+
+func (m *smModel) flushPending() {
+	m.emitted = append(m.emitted, m.pending...)
+	m.pending = nil
 }
 
 func (m *smModel) terminate(sendClass, recvClass string) {
@@ -179,26 +192,44 @@ func (m *smModel) call(ev smEvent, sid uint64) string {
 		if ev.Op == "raw" {
 			kind = uint8(ev.N % 64)
 		}
-		m.emitted = append(m.emitted, RPacket{Stream: sid, Kind: kind, Data: make([]byte, ev.size())})
+		if m.manual {
+			m.pending = append(m.pending, RPacket{Stream: sid, Kind: kind, Data: make([]byte, ev.size())})
+		} else {
+			m.emitted = append(m.emitted, RPacket{Stream: sid, Kind: kind, Data: make([]byte, ev.size())})
+		}
 		return rNil
 	case "flush":
-		return "any"
+		if !m.manual {
+			return "any"
+		}
+		switch {
+		case len(m.pending) == 0:
+			return rNil
+		case m.sendErr != "":
+			return rOther // nothing may reach the wire once the send side is closed or the stream terminated
+		}
+		m.flushPending()
+		return rNil
 	case "recv":
+		if m.slot == nil && m.recvErr == "" {
+			return rBlock
+		}
+		// a receive pushes out what the application buffered (while the send side is open)
+		if m.manual && m.sendErr == "" {
+			m.flushPending()
+		}
 		if m.slot != nil {
 			m.slot = nil
 			m.drain()
 			return rMsg
 		}
-		if m.recvErr != "" {
-			return m.recvErr
-		}
-		return rBlock
+		return m.recvErr
 	case "closesend":
 		if m.sendErr != "" || m.term {
 			return rNil
 		}
 		m.sendErr = rOther
-		m.emitted = append(m.emitted, RPacket{Stream: sid, Kind: kCloseSend})
+		m.emit(RPacket{Stream: sid, Kind: kCloseSend})
 		if m.recvErr != "" {
 			m.terminate(rOther, rOther)
 		}
@@ -207,21 +238,21 @@ func (m *smModel) call(ev smEvent, sid uint64) string {
 		if m.term {
 			return rNil
 		}
-		m.emitted = append(m.emitted, RPacket{Stream: sid, Kind: kClose})
+		m.emit(RPacket{Stream: sid, Kind: kClose})
 		m.terminate(rOther, rOther)
 		return rNil
 	case "senderror":
 		if m.term {
 			return rNil
 		}
-		m.emitted = append(m.emitted, RPacket{Stream: sid, Kind: kError, Data: make([]byte, 8+len(e2ErrText))})
+		m.emit(RPacket{Stream: sid, Kind: kError, Data: make([]byte, 8+len(e2ErrText))})
 		m.terminate(rEOF, rOther)
 		return rNil
 	case "sendcancel":
 		if m.term {
 			return rNil
 		}
-		m.emitted = append(m.emitted, RPacket{Stream: sid, Kind: kCancel, Ctl: true})
+		m.emit(RPacket{Stream: sid, Kind: kCancel, Ctl: true})
 		m.terminate(rEOF, rCancel)
 		return rNil
 	case "cancel":
@@ -255,6 +286,8 @@ type e2 struct {
 	d    *Director
 	net  *Net
 	ep, peer *Endpoint
+	manual   bool
+	lateWrites map[string]int // concurrent mode: per task, transport writes with message frames begun on a terminated stream during the current call
 	mon  *WireMonitor
 	st   *drpcstream.Stream
 	sid  uint64
@@ -297,7 +330,7 @@ func (x *e2) exec(ev smEvent) (class string, detail string) {
 		return classOf(err, errE2Cancel), errStr(err)
 	case "flush":
 		err := st.RawFlush()
-		return "any", errStr(err)
+		return classOf(err, errE2Cancel), errStr(err)
 	case "recv":
 		var m Msg
 		var err error
@@ -441,11 +474,14 @@ func runE2(spec RunSpec, ch *Choices) *RunResult {
 	}
 	concurrent := ch.Bool("cfg", 0.35)
 	x.sid = uint64(1 + ch.Pick("cfg", 5))
-	opts := drpcstream.Options{SplitSize: []int{0, 1, 7, -1}[ch.Pick("cfg", 4)], ManualFlush: concurrent && ch.Bool("cfg", 0.3)}
+	opts := drpcstream.Options{SplitSize: []int{0, 1, 7, -1}[ch.Pick("cfg", 4)], ManualFlush: ch.Bool("cfg", 0.3)}
 	wbuf := 1
 	if concurrent {
 		wbuf = []int{1, 0, 64}[ch.Pick("cfg", 3)]
+	} else if opts.ManualFlush {
+		wbuf = 1 << 16 // nothing reaches the transport before a flush
 	}
+	x.manual = opts.ManualFlush
 	wr := drpcwire.NewWriter(x.ep, wbuf)
 	x.st = drpcstream.NewWithOptions(context.Background(), x.sid, wr, opts)
 	x.d.Logf("RUN seed=%d index=%d engine=stream-model concurrent=%v sid=%d split=%d manual=%v wbuf=%d policy=%s", spec.Seed, spec.Index, concurrent, x.sid, opts.SplitSize, opts.ManualFlush, wbuf, policyNames[x.d.Policy])
@@ -487,7 +523,7 @@ func (x *e2) runSequential() {
 	}
 	x.res.Desc = map[string]any{"mode": "sequential", "history": desc}
 	x.d.Logf("  history %v", desc)
-	m := &smModel{}
+	m := &smModel{manual: x.manual}
 	// the feeder hands peer packets to HandlePacket one after the other, like the
 	// manager's reader does
 	var feedIn []smPacket
@@ -686,6 +722,30 @@ func (x *e2) runConcurrent() {
 			x.st.HandlePacket(x.toWire(p))
 		}
 	})
+	// a call that finds the stream terminated stops writing: at most one transport
+	// write carrying message frames may BEGIN on a terminated stream per call (the
+	// one whose termination check had just passed)
+	x.lateWrites = map[string]int{}
+	x.net.OnWrite = func(e *Endpoint, p []byte) {
+		if e != x.ep {
+			return
+		}
+		x.mon.Write(p)
+		if !x.st.IsTerminated() {
+			return
+		}
+		for b := p; len(b) > 0; {
+			fr, ok, err := refParseFrame(b)
+			if !ok || err != nil {
+				break
+			}
+			if fr.Kind == kMessage {
+				x.lateWrites[taskName()]++
+				break
+			}
+			b = b[fr.Size:]
+		}
+	}
 	for c := 0; c < ncall; c++ {
 		st := fmt.Sprintf("caller%d", c)
 		nops := 1 + x.ch.Pick(st, 3)
@@ -708,9 +768,13 @@ func (x *e2) runConcurrent() {
 				results = append(results, r)
 				_, t := verifsim.Current()
 				t.SetAPI(ev.Op)
+				x.lateWrites[t.Name] = 0
 				r.class, _ = x.exec(ev)
 				t.SetAPI("")
 				r.end = x.d.Step
+				if n := x.lateWrites[t.Name]; n > 1 {
+					x.viol("concurrent", fmt.Sprintf("a call kept handing message frames to the transport after the stream was terminated: op=%s result=%s", ev.Op, r.class), fmt.Sprintf("%d writes begun on the terminated stream", n))
+				}
 			}
 		})
 	}
